@@ -56,6 +56,6 @@ Definition is_perm_of_units (n : nat) (l : list nat) : bool :=
 Definition valid_order (n : nat) (owner : list nat) (dist_j : list Q) (l : list nat) : bool :=
   is_perm_of_units n l && sorted_by (unit_dist owner (nthQ dist_j)) l.
 
-(* get_test_batch_size and the batch loop of _shapley_neighbor (observation O1 of DESIGN.md) *)
-Definition get_test_batch_size (bsize n_train n_test : nat) : nat :=
-  Nat.max (n_test / Nat.max ((n_train * n_test) / bsize) 1) n_test.
+(* get_test_batch_size and the batch loop of _shapley_neighbor (observation O1 of DESIGN.md); sizes in N *)
+Definition get_test_batch_size (bsize n_train n_test : N) : N :=
+  N.max (n_test / N.max ((n_train * n_test) / bsize) 1) n_test.
